@@ -316,6 +316,8 @@ def run(chk, repo, tier):
         for v in accs:
             chk.instance(D4, f'{f.qualname}: accumulator `{v}` extended in place')
 
+    D11 = chk.rule('D11', 'remove_symbol_definitions: every protecting set is closed under dependencies', floor=2)
+    closed_protection_sets(chk, D11, repo)
     # ---------------------------------------------------------------- D6 closure of keep / remove sets
     D6 = chk.rule('D6', 'sets grown from the dependency graph in a single pass over a copy use a transitive traversal '
                         '(not one-step adjacency)', floor=2)
@@ -505,6 +507,46 @@ def run(chk, repo, tier):
             chk.violation(D10, xm.rel, dg.name, 'no rewrite of the entries that used the redefined symbol',
                           'definitions that used the old value now point at the new definition', line=I.lineno,
                           witness='TMP = THETA1*WGT*exp(ETA1); CL = TMP; TMP = THETA2; V = TMP: has_random_effect(CL) is False')
+
+
+TRANSITIVE_APIS = {'dfs_preorder_nodes', 'dfs_postorder_nodes', 'dfs_edges', 'descendants', 'ancestors', 'bfs_tree', 'dfs_tree',
+                   'bfs_edges', 'bfs_predecessors', 'bfs_successors', 'transitive_closure'}
+
+
+def closed_protection_sets(chk, rule, repo):
+    """in remove_symbol_definitions every set subtracted from the candidates is built with a transitive traversal"""
+    m = repo.module('pharmpy.model.statements')
+    f = m.classes['Statements'].methods.get('remove_symbol_definitions')
+    if f is None:
+        raise AnalysisError('remove_symbol_definitions not found')
+    prot = []
+    for n in walk_no_nested(f.node):
+        if isinstance(n, ast.AugAssign) and isinstance(n.op, ast.Sub) and isinstance(n.value, ast.Name):
+            prot.append((n.value.id, n))
+        if isinstance(n, ast.Assign) and isinstance(n.value, ast.BinOp) and isinstance(n.value.op, ast.Sub) \
+                and isinstance(n.value.right, ast.Name):
+            prot.append((n.value.right.id, n))
+    if len(prot) < 2:
+        raise AnalysisError(f'protecting sets of remove_symbol_definitions not recognised ({[p[0] for p in prot]})')
+    for name, site in prot:
+        apis = set()
+        for n in ast.walk(f.node):
+            tgt = None
+            if isinstance(n, ast.Assign) and any(isinstance(t, ast.Name) and t.id == name for t in n.targets):
+                tgt = n.value
+            elif isinstance(n, ast.AugAssign) and isinstance(n.target, ast.Name) and n.target.id == name:
+                tgt = n.value
+            if tgt is not None:
+                apis |= {a.attr for a in ast.walk(tgt) if isinstance(a, ast.Attribute)} | \
+                        {a.id for a in ast.walk(tgt) if isinstance(a, ast.Name)}
+        ok = bool(apis & TRANSITIVE_APIS)
+        chk.instance(rule, f'remove_symbol_definitions: `{unparse(site)[:50]}`: `{name}` built with {sorted(apis & TRANSITIVE_APIS)}')
+        if not ok:
+            chk.violation(rule, m.rel, f.qualname, f'{unparse(site)[:60]} with {name} not closed',
+                          f'`{name}` protects definitions from removal but contains only the directly used ones: their own '
+                          f'dependencies are removed', line=site.lineno,
+                          witness='S4 = V; V = TVV*EXP(ETA); TVV = ...: after a setter removes K40 = CL/V, TVV is deleted while V '
+                                  'is kept ("Symbol TVV is not defined")')
 
 
 def _parent(root, node):
